@@ -123,7 +123,9 @@ def run(ctx):
     n = 0
     bad = []
     from engine.absint import Val
-    for (has_tf, tdep, force, own_tf), rel in itertools.product(itertools.product([True, False], repeat=4), ("same", "later", "earlier")):
+    from engine.absint import _Raise
+    for ((has_tf, tdep, force, own_tf), rel), fails in itertools.product(
+            itertools.product(itertools.product([True, False], repeat=4), ("same", "later", "earlier")), (False, True)):
         if not has_tf and own_tf:
             continue
         same_time = rel == "same"
@@ -144,6 +146,8 @@ def run(ctx):
                 return now
             if name == "_produce_value":
                 holder["it"].trace.append("produce")
+                if fails:
+                    raise _Raise("GeneratorError")
                 return Obj("fresh_value")
             return NotImplemented
         it = Interp(ctx.hier, dyn=DYN, call_hook=hook)
@@ -160,6 +164,12 @@ def run(ctx):
             if o.imprecise:
                 raise AnalysisError("absint imprecise on _produce_value: %s" % o.notes)
             produced = "produce" in o.trace
+            if fails and want_produce:
+                # a generator that raises must leave the cache exactly as it was, so that a retry at this time produces again
+                if not (o.kind == "raise" and gen.attrs["_Dynamic_last"] is cached_val and gen.attrs["_Dynamic_time"] is cached_time):
+                    bad.append(dict(time_fn=has_tf, time_dependent=tdep, force=force, same_time=same_time, generator_raises=True,
+                                    cache_value_kept=gen.attrs["_Dynamic_last"] is cached_val, cache_time_kept=gen.attrs["_Dynamic_time"] is cached_time))
+                continue
             last_written = gen.attrs["_Dynamic_last"] is not cached_val
             time_written = gen.attrs["_Dynamic_time"] is not cached_time or (timed and produced and gen.attrs["_Dynamic_time"] is now and now is not cached_time)
             ret_fresh = o.kind == "return" and isinstance(o.value, Obj) and o.value.name == "fresh_value"
@@ -198,7 +208,13 @@ def run(ctx):
                     and c.func.attr == "append" and c.args and "_saved_" in norm(c.func.value))
     pops = sorted((norm(st.value.func.value), norm(st.targets[0])) for st in walk_stmts(pp.node) if isinstance(st, ast.Assign) and isinstance(st.value, ast.Call)
                   and isinstance(st.value.func, ast.Attribute) and st.value.func.attr == "pop" and not st.value.args and "_saved_" in norm(st.value.func.value))
-    if pushes and pushes == pops and {p[1].split(".")[-1] for p in pushes} >= {"_Dynamic_last", "_Dynamic_time"}:
+    lookup = all(any(isinstance(c, ast.Call) and isinstance(c.func, ast.Attribute) and c.func.attr == "get_value_generator" for c in ast.walk(g.node))
+                 and any(isinstance(lp, ast.For) and "param.objects(" in norm(lp.iter) for lp in ast.walk(g.node)) for g in (ps, pp))
+    if not lookup:
+        ctx.fail("R19.d", ps, ps.node, "_state_push/_state_pop no longer visit every parameter through param.objects(...) / get_value_generator(name): generators held by the class "
+                                       "(not set on the instance) are neither saved nor restored", key="Parameters::state-push-pop-coverage",
+                 input="generator assigned on the class after the instance was created; push, jump, read, pop -> inspect_value shows the future value")
+    elif pushes and pushes == pops and {p[1].split(".")[-1] for p in pushes} >= {"_Dynamic_last", "_Dynamic_time"}:
         ctx.ok("R19.d", ps, ps.node, "push/pop pairs: %s" % ", ".join("%s<->%s" % p for p in pushes))
     else:
         ctx.fail("R19.d", pp, pp.node, "_state_pop does not pop exactly what _state_push saved (push %s, pop %s)" % (pushes, pops), key="Parameters::state-push-pop")
